@@ -117,6 +117,12 @@ Section Analysis.
      theorems are stated for non-empty containers.) *)
   Definition run (st : ast) (c : container X M) : ast := run_batches c st (batches_of (c_rows c) (eff_bs (c_bs c))).
 
+  (* run(container) interrupted by an exception raised while batch number k (0-based) is prepared or handed to update():
+     the batches before it were processed (and their convergence bookkeeping done), nothing else happens — no
+     _final_compute, results and scores stay as they were. *)
+  Definition run_interrupted (st : ast) (c : container X M) (k : nat) : ast :=
+    fold_left (fun s sub => batch_loop_compute (process c s sub)) (firstn k (batches_of (c_rows c) (eff_bs (c_bs c)))) st.
+
   (* several run() calls on the same object, in order *)
   Definition run_seq (st : ast) (runs : list (container X M)) : ast := fold_left run runs st.
 
@@ -150,18 +156,29 @@ Definition free_run {X M D} (data : M -> D) (cstep : option nat) :=
 Definition free_fresh {X D} := fresh (list (X * D)) (list (X * D)) (list (X * D)) [].
 
 (* ---------------------------------------------------------------- selection function + model of the harness *)
-Inductive lmodel := MValue | MHw | MMonobit (b : N).
+Inductive lmodel := MValue | MHw | MMonobit (b : N) | MHwWords (k : nat).   (* MHwWords k = HammingWeight(nb_words = k), k >= 1 *)
 Definition lmodel_apply (m : lmodel) (v : Z) : Z :=
   match m with
   | MValue => v
-  | MHw => Z.of_N (popcount (Z.to_N v))
+  | MHw | MHwWords _ => Z.of_N (popcount (Z.to_N v))
   | MMonobit b => Z.of_N (monobit b v)
   end.
-(* attack: data[g][w] = model(meta[w] xor guesses[g]) flattened guess-major; reverse (no guesses): data[w] = model(meta[w]) *)
+(* sums of consecutive groups of k values (a trailing incomplete group is dropped, as HammingWeight does) *)
+Fixpoint group_sums (fuel k : nat) (l : list Z) : list Z :=
+  match fuel with
+  | O => []
+  | S f => if length l <? k then [] else fold_right Z.add 0%Z (firstn k l) :: group_sums f k (skipn k l)
+  end.
+Definition model_row (m : lmodel) (vals : list Z) : list Z :=
+  match m with
+  | MHwWords k => if k <=? 1 then map (lmodel_apply m) vals else group_sums (length vals) k (map (lmodel_apply m) vals)
+  | _ => map (lmodel_apply m) vals
+  end.
+(* attack: data[g] = model(meta xor guesses[g]) flattened guess-major; reverse (no guesses): data = model(meta) *)
 Definition data_row (guesses : option (list Z)) (m : lmodel) (meta : list Z) : list Z :=
   match guesses with
-  | None => map (lmodel_apply m) meta
-  | Some gs => flat_map (fun g => map (fun v => lmodel_apply m (Z.lxor v g)) meta) gs
+  | None => model_row m meta
+  | Some gs => flat_map (fun g => model_row m (map (fun v => Z.lxor v g) meta)) gs
   end.
 
 Definition chain_fun (ps : list prep) : list (list Z -> list Z) := map prep_row ps.
@@ -194,7 +211,9 @@ Record c02_run := {
   r2_chain : list prep;
   r2_setting : bs_setting;            (* what set_batch_size was given before this run *)
   r2_itemsize : Z;                    (* itemsize of the samples dtype *)
-  r2_obs_bs : option Z                (* container.batch_size as observed (None: it returned None / raised) *)
+  r2_obs_bs : option Z;               (* container.batch_size as observed (None: it returned None / raised) *)
+  r2_fail : option nat;               (* Some p: trace number p (0-based) makes its batch raise (preprocess / selection function) *)
+  r2_obs_fed : nat                    (* number of rows handed to update() during this run() *)
 }.
 
 Record c02_case := {
@@ -229,23 +248,39 @@ Definition c02_container (r : c02_run) : container (list Z) (list Z) :=
   {| c_rows := r2_rows r; c_fr := select 0%Z (r2_frame r); c_chain := chain_fun (r2_chain r); c_bs := run_bs_nat r |}.
 Definition c02_rows (c : c02_case) (r : c02_run) : list zrow2 :=
   rows_of (list Z) (list Z) (list Z) (list Z) (fun m => m) (data_row (c2_guesses c) (c2_model c)) (c02_container r).
-Definition c02_expected_updates (c : c02_case) : list (list zrow2) :=
-  flat_map (fun r => batches_of (c02_rows c r) (eff_bs (c2_step c) (run_bs_nat r))) (c2_runs c).
+Definition run_eff_bs (c : c02_case) (r : c02_run) : nat := eff_bs (c2_step c) (run_bs_nat r).
+(* the batches of one run() according to the impl-model: all of them, or those before the one holding the failing trace *)
+Definition c02_run_batches (c : c02_case) (r : c02_run) : list (list zrow2) :=
+  let bts := batches_of (c02_rows c r) (run_eff_bs c r) in
+  match r2_fail r with None => bts | Some p => firstn (p / run_eff_bs c r) bts end.
+Definition c02_expected_updates (c : c02_case) : list (list zrow2) := flat_map (c02_run_batches c) (c2_runs c).
 
-(* impl-model side: the free accumulator run through the model of run() *)
+(* impl-model side: the free accumulator run through the model of run() (interrupted runs included) *)
 Definition c02_model_state (c : c02_case) :=
-  free_run (data_row (c2_guesses c) (c2_model c)) (c2_step c) free_fresh (map c02_container (c2_runs c)).
+  fold_left (fun st r =>
+      match r2_fail r with
+      | None => free_run (data_row (c2_guesses c) (c2_model c)) (c2_step c) st [c02_container r]
+      | Some p => run_interrupted (list Z) (list Z) (list Z) (list Z) (list zrow2) (list zrow2) (list zrow2) [] (@app _) (fun x => [x])
+                    (fun s => s) (fun m => m) (data_row (c2_guesses c) (c2_model c)) (fun o => o) (c2_step c) st (c02_container r)
+                    (p / run_eff_bs c r)
+      end) (c2_runs c) free_fresh.
 
 Definition is_nil {A} (l : list A) : bool := match l with [] => true | _ => false end.
 
 (* all the SPEC rows of the case: every trace of every container once, in order, with its own metadata *)
-Definition c02_spec_rows (c : c02_case) : list zrow2 := flat_map (c02_rows c) (c2_runs c).
+(* a run() that raises contributes the rows it handed to update() before: a prefix of its rows, the observed number of them *)
+Definition c02_spec_rows (c : c02_case) : list zrow2 := flat_map (fun r => firstn (r2_obs_fed r) (c02_rows c r)) (c2_runs c).
 
 (* PROPERTY level (check_fn): what the property states, on public observables only — whatever the batch boundaries and
    the value of the batch size. *)
 Definition c02_check (c : c02_case) : bool :=
   match c2_step c with Some k => 1 <=? k | None => true end
   && forallb (fun r => match r2_rows r with [] => false | row :: _ => frame_ok (r2_frame r) (length (fst row)) end) (c2_runs c)
+  (* a complete run() feeds all its traces; a run() that raises feeds only traces before the failing one *)
+  && forallb (fun r => match r2_fail r with
+                       | None => Nat.eqb (r2_obs_fed r) (length (r2_rows r))
+                       | Some p => (r2_obs_fed r <=? p) && (p <? length (r2_rows r))
+                       end) (c2_runs c)
   (* every trace exactly once, in order, restricted to the frame THEN passed through the chain, paired with its own metadata:
      the rows fed to update(), batch after batch, are the SPEC rows; no empty batch *)
   && list_eqb zrow2_eqb (concat (c2_obs_updates c)) (c02_spec_rows c)
